@@ -163,3 +163,6 @@ Example iso_roundtrip_ex :
   iso_parse (iso_format (mkDt 63713433600000001 (Some (mkTz (-19800000000) None))))
   = Ok (mkDt 63713433600000001 (Some (mkTz (-19800000000) (Some (lit "-05:30"))))).
 Proof. vm_compute. reflexivity. Qed.
+Example iso_offset_ok_ex : iso_offset_ok (mkDt 63713433600000001 (Some (mkTz (-19800000000) None))) = true /\
+                           iso_offset_ok iso_witness = false /\ in_range 63713433600000001 = true.
+Proof. repeat split; vm_compute; reflexivity. Qed.
